@@ -650,12 +650,40 @@ def member_rollback(**kw):
     return sc.rec
 
 
+def backoff_burst(**kw):
+    """a follower whose last entries conflict with the leader's, and a leader more than one batch ahead: every
+    append_entries of the burst is refused, and the answers to the later ones (unknown index: own end + 1) must not
+    undo the answer to the first (term mismatch: one step back) - or the next index never gets below the conflict"""
+    sc = Script(base_cfg([1, 2, 3], batch=100, fallback=50), **kw)
+    s = sc.s
+    s.boot()
+    sc.elect(3)
+    sc.settle([1, 2, 3], 2)
+    sc.isolate(3)
+    for _ in range(2):
+        s.submit(3, size=20)      # two entries of 3's term that reach nobody
+    s.tick(3, 11)
+    sc.elect(1, [2])              # 1 leads a later term; its entries take the same indices
+    for _ in range(3):
+        s.submit(1, size=20)
+    sc.settle([1, 2], 3)
+    sc.elect_until(2, [1])        # 2 leads the next term: its next index for 3 is its log end + 1
+    for _ in range(8):
+        s.submit(2, size=20)
+    sc.settle([1, 2], 3)
+    sc.join(3)
+    RC.quiet_period(s, timeouts=6)
+    sc.rec.convergence = RC.convergence_problems(sc.rec, s, None, {})
+    return sc.rec
+
+
+
 SCENARIOS = {'d7': d7, 'd8': d8, 'd17': d17, 'd16': d16, 'd1': d1, 'd20': d20,
              'snapshot_catchup': snapshot_catchup, 'forwarded': forwarded,
              'restart_double_vote': restart_double_vote, 'd18': d18, 'd10': d10, 'd19': d19, 'd6': d6,
              'ser_fork': ser_fork, 'ser_custom': ser_custom, 'fig8': fig8, 'stale_match_reelected': stale_match_reelected,
              'stale_cursor': stale_cursor, 'compact_during_install': compact_during_install,
-             'member_rollback': member_rollback}
+             'member_rollback': member_rollback, 'backoff_burst': backoff_burst}
 NAMES = sorted(SCENARIOS)
 
 
